@@ -843,18 +843,22 @@ func renderView(v *preconfirmed.ChainReader) string {
 // shapeProblem checks the schedule-independent structural properties of a view requested with
 // SnapshotForBlock(arg): empty, or a gap-free run arg..tip, equal in both iteration orders, with
 // Length = tip - arg + 1 and Head = the newest entry.
+// maxViewLen bounds the iteration of a view (a cyclic chain must not hang the check); far above the longest chain any test
+// builds (grow(): 70 slots + a Repeat of appends in the thorough tier).
+const maxViewLen = 4096
+
 func shapeProblem(v *preconfirmed.ChainReader, arg uint64) string {
 	var up, down []*pending.PreConfirmed
 	for e := range v.OldestFirst() {
 		up = append(up, e)
-		if len(up) > 64 {
-			return "OldestFirst does not terminate within 64 entries"
+		if len(up) > maxViewLen {
+			return "OldestFirst does not terminate within the longest chain any test builds"
 		}
 	}
 	for e := range v.NewestFirst() {
 		down = append(down, e)
-		if len(down) > 64 {
-			return "NewestFirst does not terminate within 64 entries"
+		if len(down) > maxViewLen {
+			return "NewestFirst does not terminate within the longest chain any test builds"
 		}
 	}
 	if len(up) != v.Length() || len(down) != v.Length() {
